@@ -205,6 +205,15 @@ def run_family(family, args, outdir, log):
         env = dict(os.environ, GORACE="log_path=%s exitcode=0" % os.path.join(outdir, "race"))
         rc, out = sh([os.path.join(BIN, "drive_race"), family, "-out", outdir] + args, env=env, timeout=3000)
         if rc != 0:
+            # the process that ran the concurrent readers died (a fatal runtime error such as
+            # "concurrent map writes" cannot be recovered): that is the failing schedule
+            if "fatal error:" in out or "panic:" in out:
+                i = max(out.find("fatal error:"), out.find("panic:"))
+                summary = {"family": "concurrent", "cases": 0, "steps": 0, "distinct_nontrivial": 0, "files": [],
+                           "oracle_findings": [{"property": "C18", "case": 0, "step": 0,
+                                                "what": "the process running concurrent read-only calls on one handle died: " + out[i:i + 300],
+                                                "input": out[i:i + 3000]}]}
+                return summary, [], None
             return None, None, "harness failed: " + out[-2000:]
         summary = json.load(open(os.path.join(outdir, "summary.json")))
         races = sorted(f for f in os.listdir(outdir) if f.startswith("race."))
